@@ -215,7 +215,7 @@ pub fn run(p: &Params, rep: &mut Report) {
         "references are known (bound) selections; for plain Equals the expected result is the reference selection(s) themselves".into(),
     ];
     let ops = all_variants(&[None, Some(0), Some(1), Some(3)]);
-    let total: u64 = if p.thorough { 12000 } else { 240 };
+    let total: u64 = if p.thorough { 12000 } else { 4000 };
     for k in p.cases(total) {
         rep.current_case = p.case_coord(k);
         rep.cases += 1;
